@@ -178,6 +178,18 @@ F_Collapse(V, W, must, may, keepTipLens) ==
               {<<W.below[n], W.nm[n]>> : n \in InnerNonRoot(W)} \subseteq
               {<<V.below[n], V.nm[n]>> : n \in InnerNonRoot(V)})
 
+\* rmRoot: the caller allowed the branches under the root of a rooted tree to be removed (removeRoot / --root); otherwise
+\* they are not among "the inner branches" the call may remove: the tree stays rooted and the root bipartition keeps its length
+F_CollapseR(V, W, must, may, keepTipLens, rmRoot) ==
+  F_Collapse(V, W, must, may, keepTipLens)
+  \cup (IF rmRoot \/ ~IsRooted(V) THEN {}
+        ELSE Fail("CollapseKeepsTheRootBranches",
+                  /\ IsRooted(W)
+                  /\ \A s \in RootSplits(V) :
+                        /\ s \in Splits(W)
+                        \* (with removeTips the length of a tip branch under the root becomes 0)
+                        /\ (keepTipLens \/ RootKids(V) \cap V.tips = {}) => SplitLen(W)[s] = SplitLen(V)[s]))
+
 F_Resolve(V, W) ==
      Fail("ResolveSameTips",  V.names = W.names /\ UniqueNames(W))
   \cup Fail("ResolveBinary",    Binary(W))
